@@ -206,6 +206,78 @@ theorem relay_lossless_index_any_interleaving (cfg : Cfg) (names : Nat → Bytes
   rw [global_stream_is_runStream indexOps cfg names a0 evs k script hk]
   exact relay_lossless_index cfg (names k.1) (names 0) (strmNo k) (!k.2) hm1 hm2 ha0 script hdom
 
+/-! ### clauses of the property spelled out (corollaries of the theorems above)
+
+  Clauses of C05/C06 that are NOT theorems (decided by correspondence / real runs only), for the record:
+  stdio buffering below fputs (when the bytes of a call reach the descriptor: `_flush_output` never
+  fflush()es, exit does); what a transport child does to inherited stdio buffers (seeded C06-5: must be
+  nothing, `_exit`); read(2) errors other than EAGAIN; streams abandoned by a timeout; NUL bytes, lines
+  over 128 KiB and names of LINEBUFSIZE bytes or more (outside the domain); the poll loop itself (here:
+  any sequence of handler calls); the hand-written model's fidelity to dsh.c/err.c as such. -/
+
+/-- STANDARD ERROR IS RELAYED WITH THE SAME GUARANTEES AS STANDARD OUTPUT -- and needs no marker
+    clause: `_handle_rcmd_stderr` passes read_rc = false, so for stderr the domain is just "no NUL,
+    lines and final fragment at most 128 KiB"; text that contains the return-code marker is relayed
+    verbatim there.  (Index-level relay, every chunking.) -/
+theorem stderr_relayed_like_stdout (cfg : Cfg) (host t0host : Bytes) {sizeMeta : Nat} (hm1 : 1 ≤ sizeMeta)
+    (hm2 : sizeMeta ≤ 800) {a0 : Cbuf.Cbuf} (ha0 : mkIndexBuf sizeMeta = some a0) (script : List Bytes)
+    (h0 : ∀ b ∈ script.flatten, b ≠ 0) (hl : ∀ l ∈ Spec.lines script.flatten, l.length ≤ 131072)
+    (ht : (Spec.tail script.flatten).length ≤ 131072) :
+    written (runStream indexOps cfg host t0host 2 false a0 script).ems =
+      Spec.render (labelPrefix cfg.labels cfg.keep host) script.flatten ∧
+    ∀ e ∈ (runStream indexOps cfg host t0host 2 false a0 script).ems, e.stream = 2 := by
+  have hdom : Spec.Dom05 (markerOf false) script.flatten = true := by
+    rw [dom_in_words]
+    exact ⟨h0, hl, ht, by intro mk hmk; simp [markerOf] at hmk⟩
+  refine ⟨relay_lossless_index cfg host t0host 2 false hm1 hm2 ha0 script hdom, ?_⟩
+  obtain ⟨b0, hb0⟩ := mkFifoBuf_some sizeMeta
+  rw [(runStream_index_eq_fifo cfg host t0host 2 false (by omega) ha0 hb0 script).1]
+  exact relay_only_own_stream cfg host t0host 2 false hm1 hm2 hb0 script hdom
+
+theorem render_nil (s : Bytes) : Spec.render [] s = s := by
+  have h := Spec.strip_render [] s
+  have hs : ∀ (x : Bytes) (k : Nat), Spec.stripAux 0 x 0 = x := by
+    intro x _
+    induction x with
+    | nil => rfl
+    | cons c cs ih => simp [Spec.stripAux, ih]
+  simpa [Spec.strip, hs _ 0] using h
+
+/-- -N (NO-LABEL MODE): what pdsh writes for the host is the stream itself, byte for byte, for
+    every chunking (index-level relay, either stream) -/
+theorem relay_verbatim_with_N (cfg : Cfg) (hN : cfg.labels = false) (host t0host : Bytes) (strm : Nat)
+    (readRc : Bool) {sizeMeta : Nat} (hm1 : 1 ≤ sizeMeta) (hm2 : sizeMeta ≤ 800) {a0 : Cbuf.Cbuf}
+    (ha0 : mkIndexBuf sizeMeta = some a0) (script : List Bytes)
+    (hdom : Spec.Dom05 (markerOf readRc) script.flatten = true) :
+    written (runStream indexOps cfg host t0host strm readRc a0 script).ems = script.flatten := by
+  rw [relay_lossless_index cfg host t0host strm readRc hm1 hm2 ha0 script hdom]
+  simp [labelPrefix, hN, render_nil]
+
+/-- A TARGET WHOSE COMMAND NEVER STARTS (the transport's child fails before exec and writes nothing
+    to the stream) contributes NO stdio call at all -- whatever polls happen before the stream ends.
+    (What the property requires of such a host: nothing of it appears on stdout; pdsh's own
+    diagnostic about it is not relayed output.  That the child leaves pdsh's inherited stdio buffers
+    alone -- `_exit` -- is an assumption about the transport, checked by the real-process runs.) -/
+theorem unstarted_host_writes_nothing (cfg : Cfg) (host t0host : Bytes) (strm : Nat) (readRc : Bool)
+    {sizeMeta : Nat} (hm1 : 1 ≤ sizeMeta) (hm2 : sizeMeta ≤ 800) {a0 : Cbuf.Cbuf}
+    (ha0 : mkIndexBuf sizeMeta = some a0) (script : List Bytes) (hempty : script.flatten = []) :
+    (runStream indexOps cfg host t0host strm readRc a0 script).ems = [] := by
+  have hdom : Spec.Dom05 (markerOf readRc) script.flatten = true := by
+    rw [hempty]; cases readRc <;> decide
+  obtain ⟨h1, _⟩ := relay_closed_form_index cfg host t0host strm readRc hm1 hm2 ha0 script hdom
+  rw [h1, hempty]
+  simp [Spec.lines, Spec.tail, Spec.split, tailEms]
+
+/-- text that merely LOOKS like the marker is not eaten: the marker without its colon, with another
+    separator, or cut short, passes `_extract_rc` unchanged in both variants (instances of
+    `extractRc_without_marker`: only a full occurrence of RC_MAGIC triggers the cut) -/
+theorem marker_lookalikes_untouched (skip : Bool) :
+    extractRc skip (magic.take 9 ++ [10]) = (0, magic.take 9 ++ [10]) ∧
+    extractRc skip (magic.take 9 ++ [59, 51, 10]) = (0, magic.take 9 ++ [59, 51, 10]) ∧
+    extractRc skip ([88] ++ magic.drop 1 |>.take 5 |> (· ++ [32, 55, 10])) =
+      (0, ([88] ++ magic.drop 1 |>.take 5 |> (· ++ [32, 55, 10]))) := by
+  cases skip <;> decide
+
 /-! ### `_extract_rc`: why the marker is excluded from the domain; the two C08 switches
 
   The model carries two switches that belong to property C08 (status extraction), each read off
